@@ -84,6 +84,12 @@ Proof.
   rewrite rev_app_distr. cbn. constructor; auto. rewrite <- in_rev. exact H.
 Qed.
 
+Lemma NoDup_app_l {A} (l1 l2 : list A) : NoDup (l1 ++ l2) -> NoDup l1.
+Proof.
+  induction l1 as [|x l1 IH]; cbn; intros N; [constructor|]. inversion N as [|? ? N1 N2]; subst.
+  constructor; auto. intros H. apply N1, in_or_app. auto.
+Qed.
+
 Lemma IInv_od_set k v l : IInv l -> IInv (od_set k v l).
 Proof.
   unfold IInv, ic_keys. intros N. rewrite od_set_keys. destruct (od_mem k l) eqn:M; [exact N|].
@@ -254,11 +260,11 @@ Proof.
   - rewrite ix_items_eq by exact N. unfold ic_len.
     destruct (Z.eqb_spec (Z.of_nat (length c)) (Z.of_nat (length other))) as [L|L]; cbn [negb].
     + rewrite <- eq_ordered_walk by lia. apply f_equal. apply existsb_ext'. intros [[a b] [x y]]. apply bridge_index_eq_pair_differs.
-    + symmetry. apply list_eqb_length_neq. lia.
+    + symmetry. apply list_eqb_length_neq. intros H. apply L. f_equal. exact H.
   - rewrite ix_items_eq by exact N. unfold ic_len.
     destruct (Z.eqb_spec (Z.of_nat (length c)) (Z.of_nat (length other))) as [L|L]; cbn [negb].
     + rewrite <- eq_ordered_walk by lia. apply f_equal. apply existsb_ext'. intros [[a b] [x y]]. apply bridge_index_eq_pair_differs.
-    + symmetry. apply list_eqb_length_neq. lia.
+    + symmetry. apply list_eqb_length_neq. intros H. apply L. f_equal. exact H.
   - apply eq_unordered; auto.
 Qed.
 
@@ -304,7 +310,7 @@ Proof.
       assert (H : ~ In k (ic_keys c')).
       { unfold IInv, ic_keys in N. rewrite map_app in N. cbn in N. apply NoDup_remove_2 in N. rewrite app_nil_r in N. exact N. }
       rewrite ic_del_last by exact H. split; [reflexivity|]. cbn [fst].
-      unfold IInv, ic_keys in *. rewrite map_app in N. apply NoDup_app_remove_r in N. exact N.
+      unfold IInv, ic_keys in *. rewrite map_app in N. apply NoDup_app_l in N. exact N.
     + destruct c as [|[k v] c]; [split; auto|]. cbn [ic_del]. rewrite Z.eqb_refl. split; [reflexivity|].
       cbn [fst]. unfold IInv in *. cbn in N. inversion N; auto.
   - (* peekitem *) unfold ix_peekitem, i_exec_peekitem. rewrite bridge_index_peekitem_call, bridge_index_peekitem_last.
